@@ -174,6 +174,36 @@ fn seqs<C: Cm>(t: &SeqTriple) -> PResult {
     Ok(Pass::new(nt).class_if(ca.len() == cb.len(), "equal_length").class_if(ca.len() != cb.len(), "unequal_length").class_if(stale(&t.a) || stale(&t.b), "edited_or_offset_born"))
 }
 
+/// long equal-length owned sequences that differ in exactly one symbol, for every position on or
+/// next to a power-of-two block boundary: the order is decided by that symbol alone
+fn seq_boundaries<C: Cm>(s: &SeqSpec) -> PResult {
+    let sy = Syms::<C>::new()?;
+    let n = C::ID.name();
+    let a: Seq<C> = build(&sy, s)?.into_seq();
+    let codes = sy.m.codes();
+    let len = s.codes.len();
+    let mut tried = 0;
+    for p in gen::boundary_positions(len, sy.bits()) {
+        let old = s.codes[p];
+        let i = codes.iter().position(|c| *c == old).unwrap_or(0);
+        // a neighbouring code above and one below (where they exist): both directions of the order
+        for new in [codes.get(i + 1).copied(), i.checked_sub(1).map(|j| codes[j])].into_iter().flatten() {
+            let b = gen::with_symbol(&a, p, sy.sym(new));
+            let exp = old.cmp(&new);
+            let got = no_panic(&format!("seq_cmp_panic/{n}"), "a.cmp(b)", || a.cmp(&b))?;
+            ensure_eq!(got, exp, format!("seq_boundary_cmp/{n}"), "order of two {len}-symbol sequences that differ only at symbol {p} ({} vs {})", sy.m.ch(old) as char, sy.m.ch(new) as char);
+            let rev = no_panic(&format!("seq_cmp_panic/{n}"), "b.cmp(a)", || b.cmp(&a))?;
+            ensure_eq!(rev, exp.reverse(), format!("seq_boundary_cmp/{n}"), "reverse order of two {len}-symbol sequences that differ only at symbol {p}");
+            tried += 1;
+        }
+    }
+    Ok(Pass::new(tried > 0))
+}
+
+fn seq_boundaries_dispatch(t: &SeqTriple) -> PResult {
+    with_codec!(t.codec, C, seq_boundaries::<C>(&t.a))
+}
+
 pub fn seq_dispatch(t: &SeqTriple) -> PResult {
     with_codec!(t.codec, C, seqs::<C>(t))
 }
@@ -322,6 +352,16 @@ pub fn run(ctx: &mut Ctx) {
                     .prop_map(move |(a, b, rb, c, rc)| SeqTriple { codec: id, a, b: SeqSpec { codes: b, repr: rb }, c: SeqSpec { codes: c, repr: rc } })
             },
             seq_dispatch,
+        );
+        // single substitutions on and next to power-of-two block boundaries (the four longest lengths)
+        let mut big: Vec<usize> = lens.iter().copied().filter(|n| n * id.bits() >= 4096).collect();
+        big.sort();
+        let big: Vec<usize> = big.into_iter().rev().take(4).collect();
+        ctx.forall_lens(
+            &format!("seqs_long_boundaries/{}", id.name()),
+            &big,
+            |n| gen::owned_spec_n(id, n).prop_map(move |a| SeqTriple { codec: id, b: SeqSpec::plain(vec![]), c: SeqSpec::plain(vec![]), a }),
+            seq_boundaries_dispatch,
         );
     }
     ctx.each("readme", vec![0u8], readme);
